@@ -139,11 +139,6 @@ func (w *world) request(k *Case, raw []byte) (*http.Request, bool, []byte, httpS
 	case "escaped": // an escaped spelling of the provisioner's own name
 		name = "%" + fmt.Sprintf("%02x", k.Prov[0]) + k.Prov[1:]
 	}
-	if ps := specByName(k.Prov); ps != nil && (k.PName == "" || k.PName == "escaped") && ps.SetAlg && ps.EncAlg > 4 {
-		// Init refused the provisioner: the collection holds a provisioner.Uninitialized, which is
-		// not a *provisioner.SCEP for lookupProvisioner
-		sh.lookup = "other"
-	}
 	path := "/scep/" + name
 	switch k.Path {
 	case "slash":
@@ -576,8 +571,9 @@ func (w *world) run(k *Case) (line, impl, specImpl, specWant string, ok bool) {
 	accepted := true
 	nChallengeHooks := 0
 	anyAllow, anyErr := false, false
+	converted := w.ca.kind == "adm"
 	for _, h := range ps.Hooks {
-		if h.Kind == "scep" && h.CT != "ssh" {
+		if h.Kind == "scep" && h.CT != "ssh" && (h.CT != "bad" || converted) {
 			nChallengeHooks++
 			switch h.Path {
 			case "allow", "r5allow":
@@ -597,6 +593,10 @@ func (w *world) run(k *Case) (line, impl, specImpl, specWant string, ok bool) {
 	}
 	if f.Env != "csr" {
 		accepted = false
+	}
+	if specInitFails(ps, converted) {
+		// the provisioner does not initialise: nothing may be issued through it
+		method, accepted = "uninit", false
 	}
 	gotCert := r.kind == "ok" || r.inner > 0 || r.outer > 0 || stored > 0
 	specImpl = "nocert"
@@ -654,7 +654,7 @@ func (w *world) run(k *Case) (line, impl, specImpl, specWant string, ok bool) {
 	}
 	std := sh.lookup == "scep" && sh.op == "pki" && sh.qok && sh.path != "root" && (sh.meth == "get" || sh.meth == "post")
 	reaches := std && httpOK && f.P7 && f.TID && csrType && f.SN == "ok" && f.Inner && decSel && f.Env == "csr"
-	if reaches && !accepted && !crashed && !gotCert && r.kind != "fail" {
+	if reaches && method != "uninit" && !accepted && !crashed && !gotCert && r.kind != "fail" {
 		specImpl, specWant = "nocert:noreply", "nocert"
 	}
 	if crashed {
@@ -869,7 +869,7 @@ func corner() []*Case {
 		}
 	}
 	// ---- webhooks of other kinds; Init options
-	for _, pn := range []string{"henr", "hbogus", "palg0", "palg4", "pbadalg"} {
+	for _, pn := range []string{"henr", "hbogus", "hmisdeny", "hmis2", "hbadct", "hbadct2", "palg0", "palg4", "pbadalg"} {
 		for _, mt := range []string{"19", "18"} {
 			add(Case{Prov: pn, MT: mt})
 			add(Case{Prov: pn, MT: mt, HTTP: "get", HasC: true, Chal: staticSecret})
@@ -881,7 +881,7 @@ func corner() []*Case {
 	// ---- the authority with the admin database, through its life: first start (migration of the
 	// ca.json provisioners), reload, update through the admin methods, restart on the same database
 	for _, life := range []string{"mig", "reload", "update", "restart"} {
-		for _, pn := range []string{"astatic", "ahdeny", "ahmn", "apdec", "aforce", "ahssh"} {
+		for _, pn := range []string{"astatic", "ahdeny", "ahmn", "apdec", "aforce", "ahssh", "abogus", "abadct"} {
 			add(Case{Prov: pn, MT: "19", Op: "LIVE", Life: life})
 			right := staticSecret
 			if life == "update" || life == "restart" {
